@@ -109,7 +109,25 @@ def gen_case(rng: random.Random, mode: str, real_pool):
     pool = real_pool if mode == "real" else SPECIAL_SEEDS[:8] + [rng.randint(-10 ** 9, 10 ** 9)]
     ns = rng.choice([1, 2, 2, 3, 3, 4])
     seeds, groups = [], []          # groups[i] = index of the stream whose op list stream i shares
-    for i in range(ns):
+    via = None
+    if rng.random() < 0.22:
+        # the streams of a model come out of StreamInformation / StreamSeedInformation objects: several instances built
+        # with the documented default ("default" = MersenneTwister(10)), with an explicit default, or filled by add_stream
+        ns = rng.choice([2, 2, 3, 3, 4])
+        via = []
+        for i in range(ns):
+            x = rng.random()
+            if i < 2 or x < 0.5:
+                via.append(rng.choice(["info", "info", "seedinfo", "info_streams"])); seeds.append(10)
+            elif x < 0.7:
+                via.append(rng.choice(["info_arg", "seedinfo_arg"])); seeds.append(rng.choice([10, rng.choice(pool)]))
+            elif x < 0.9:
+                via.append("info_add"); seeds.append(rng.choice([10, rng.choice(pool)]))
+            else:
+                via.append("mt"); seeds.append(rng.choice([10, rng.choice(pool)]))
+            j = next((k for k in range(i) if seeds[k] == seeds[i]), None)
+            groups.append(groups[j] if j is not None and rng.random() < 0.5 else i)
+    for i in range(ns if via is None else 0):
         if i > 0 and rng.random() < 0.4:
             j = rng.randrange(i); seeds.append(seeds[j]); groups.append(groups[j])
         else:
@@ -134,6 +152,8 @@ def gen_case(rng: random.Random, mode: str, real_pool):
                 others = [i for i in range(ns) if i != j]
                 ops.insert(t, [rng.choice(others), "xrestore", j, lab])
     case = {"mode": mode, "seeds": seeds, "ops": ops}
+    if via is not None:
+        case["via"] = via
     if mode == "scripted":
         used = sorted(set(seeds) | {op[2] for op in ops if op[1] == "seed"})
         nd = sum(1 for op in ops if op[1] in ("f", "i", "b")) + 1
@@ -199,9 +219,25 @@ BAD_BOUNDS = [("a", "b"), (None, 3), (0, "x")]
 BAD_STATES = ["abc", None, (3, (1, 2, 3), None), 5]
 
 
-def make_stream(case, table, seed):
-    from pydsol.core.streams import MersenneTwister
-    mt = MersenneTwister(seed)
+def make_stream(case, table, seed, via="mt"):
+    """a stream with this seed: a new MersenneTwister (the reference of the oracle), or the object a
+    StreamInformation / StreamSeedInformation hands out (the seed of the documented default is 10)"""
+    from pydsol.core.streams import MersenneTwister, StreamInformation, StreamSeedInformation
+    if via == "mt":
+        mt = MersenneTwister(seed)
+    elif via in ("info", "seedinfo", "info_streams"):
+        assert seed == 10
+        info = StreamSeedInformation() if via == "seedinfo" else StreamInformation()
+        mt = info.get_streams()["default"] if via == "info_streams" else info.get_stream("default")
+    elif via in ("info_arg", "seedinfo_arg"):
+        info = (StreamSeedInformation if via == "seedinfo_arg" else StreamInformation)(MersenneTwister(seed))
+        mt = info.get_stream("default")
+    elif via == "info_add":
+        info = StreamInformation()
+        info.add_stream("arrivals", MersenneTwister(seed))
+        mt = info.get_stream("arrivals")
+    else:
+        raise ValueError(via)
     if case["mode"] == "scripted":
         mt._random = Scripted(table)
         mt.set_seed(seed)
@@ -253,7 +289,8 @@ def apply_op(mt, saved: dict, op, all_saved=None):
 
 def run_impl(case, table=None):
     table = table if table is not None else case_table(case)
-    streams = [make_stream(case, table, s) for s in case["seeds"]]
+    via = case.get("via") or ["mt"] * len(case["seeds"])
+    streams = [make_stream(case, table, s, v) for s, v in zip(case["seeds"], via)]
     saved = [dict() for _ in streams]
     return [apply_op(streams[op[0]], saved[op[0]], op[1:], saved) for op in case["ops"]]
 
@@ -474,6 +511,8 @@ def shrink(case, failing):
     while len(cur["seeds"]) > 1 and not any(op[0] == len(cur["seeds"]) - 1 or (op[1] == "xrestore" and op[2] == len(cur["seeds"]) - 1)
                                             for op in cur["ops"]):
         cand = dict(cur); cand["seeds"] = cur["seeds"][:-1]
+        if cur.get("via"):
+            cand["via"] = cur["via"][:-1]
         if failing(cand):
             cur = cand
         else:
@@ -665,15 +704,18 @@ def main(tier: str) -> int:
         if bad and impl_fail is None:
             impl_fail = (case, bad)
         if nontrivial(case):
-            nontriv.add(json.dumps([case["mode"], case["seeds"], case["ops"]]))
+            nontriv.add(json.dumps([case["mode"], case["seeds"], case.get("via"), case["ops"]]))
         evaluated.append((case, outs))
     run.cov["evaluations"] = len(evaluated)
     run.cov["distinct_nontrivial"] = len(nontriv)
-    run.cov["rule"] = ("random interleavings of 5-40 requests over 1-4 MersenneTwister objects (40% twins sharing seed and request list), "
+    run.cov["rule"] = ("random interleavings of 5-40 requests over 1-4 MersenneTwister objects (40% twins sharing seed and request list; in 22% of the "
+                       "histories the objects are handed out by 2-4 StreamInformation / StreamSeedInformation instances: documented default, "
+                       "explicit default, add_stream / get_stream / get_streams), "
                        "seeds from {0, +-1, 10, 101, -7, 2^31, 2^32-1, -2^32, 2^63, 2^64, +-(2^64+5), 2^70+3, 2^130+12345, random, 200-bit}; "
                        "2/3 on the real random.Random, 1/3 on a scripted generator with extreme outputs; "
                        "non-trivial = distinct case with >= 2 streams, >= 1 next_int and a reset/restore/set_seed followed by >= 2 draws on the same stream")
     run.cov["op_histogram"] = hist
+    run.cov["histories_over_streams_handed_out_by_StreamInformation"] = sum(1 for c, _ in evaluated if c.get("via"))
     run.cov["int_range_histogram"] = kinds_of_range
     run.cov["exception_histogram"] = exc_hist
     for case, outs in evaluated[n_corpus:n_corpus + 2]:
